@@ -93,9 +93,23 @@ package types
 //@   assigns self.closed, self.open
 //@   ensures self.closed && !self.open
 
+//@ -- PInv(p): the persisted segment list describes one contiguous, unambiguous
+//@ -- log (properties C03/C04/C13): BaseIndex >= 1, MinIndex >= BaseIndex (equal
+//@ -- except for the head-truncated first segment), IDs below NextSegmentID and
+//@ -- growing, every segment but the last sealed with MinIndex <= MaxIndex and
+//@ -- followed without gap or overlap by the next one.
+//@ predicate PInv(p) = (forall j int :: 0 <= j && j < len(p.Segments) ==> p.Segments[j].BaseIndex >= 1 && p.Segments[j].MinIndex >= p.Segments[j].BaseIndex
+//@         && p.Segments[j].ID < p.NextSegmentID && (j > 0 ==> p.Segments[j].MinIndex == p.Segments[j].BaseIndex))
+//@   && (forall j int :: 0 <= j && j < len(p.Segments) - 1 ==> !iszero(p.Segments[j].SealTime) && p.Segments[j].MinIndex <= p.Segments[j].MaxIndex
+//@         && p.Segments[j+1].BaseIndex == p.Segments[j].MaxIndex + 1 && p.Segments[j+1].ID > p.Segments[j].ID)
+
 //@ -- g_commits counts successful CommitState calls: the durable metadata
 //@ -- changes exactly at those points (atomically, per the MetaStore interface).
+//@ -- Only a state satisfying PInv may be committed; Load returns the last
+//@ -- committed state (or the empty initial one), hence a PInv state (assumed:
+//@ -- BoltDB transaction + JSON round trip of metadb.BoltMetaDB).
 //@ interface MetaStore.CommitState
+//@   requires[C03.pinv-at-commit] PInv(arg0)
 //@   ensures true
 //@   ghostset g_commits = ite(result == nil, g_commits + 1, g_commits)
 
@@ -103,6 +117,7 @@ package types
 //@   assigns self.open
 //@   ensures result1 == nil ==> self.open
 //@   ensures result1 != nil ==> self.open == old(self.open)
+//@   ensures[C03.loaded-pinv] result1 == nil ==> PInv(result0)
 
 // ---------------------------------------------------------------------------
 // SegmentWriter / SegmentReader as the WAL sees them. Ghost view of a tail
